@@ -74,3 +74,10 @@ func VerifIdleTask(s *Stream, closedStatus int32) (run func(), closed func() boo
 }
 
 var _ = rtp.ChannelVideo
+
+// VerifNewCacheStream builds a stream with an H.264 cache but no converter goroutines.
+func VerifNewCacheStream(path string, cacheGop bool) *Stream {
+	s := VerifNewBareStream(path)
+	s.cache = newH264CacheForVerif(cacheGop)
+	return s
+}
